@@ -11,7 +11,7 @@ RULE = ("op tx.parse <json> -> kind + every field: every numeric field of every 
         "(JSON int, integral float x.0 / e-notation, decimal string, 0x hex string), equal integers in different spellings (extra check: identical parse), "
         "and a malformed stream injected into one field: negative ints/strings, fractions, sub-ulp fractions, huge/tiny exponents, >= 2^256 in decimal and hex, "
         "empty, 0x, odd/bad hex, wrong-length addresses/keys, null, booleans, arrays; also op json.f64 <literal> cross-checking the binary64 model against serde_json. "
-        "a random sample of the cases is re-run through every sub-command that reaches the same code (vlib/routes.py); non-trivial = distinct document with at least one non-int spelling or an injected malformed field; judge = exact mathematical value of each literal")
+        "equivalent JSON spellings (white space, \\uXXXX escapes in keys and string values) of a sample of valid and malformed documents; a random sample of the cases is re-run through every sub-command that reaches the same code (vlib/routes.py); non-trivial = distinct document with at least one non-int spelling or an injected malformed field; judge = exact mathematical value of each literal")
 EXHAUSTIVE_SWEEPS = {"quick": ["every numeric field x every spelling class x boundary table"], "thorough": ["every numeric field x every spelling class x boundary table"]}
 NUMERIC = {"legacy": ["chainId", "nonce", "gasPrice", "gas", "value"],
            "eip2930": ["chainId", "nonce", "gasPrice", "gas", "value"],
@@ -158,6 +158,16 @@ def gen(rng, tier):
         if rng.random() < 0.6:
             s += rng.choice("eE") + rng.choice(["", "+", "-"]) + str(rng.choice([0, 1, 5, 10, 22, 23, 100, 300, 308, 309, 320, 340, 400, rng.randrange(0, 700)]))
         cases.append(Case("json.f64 " + hx(s), tags=("f64",), nontrivial=False))
+    # equivalent JSON spellings (white space, \\uXXXX escapes in keys and in string values) of valid and malformed documents:
+    # the same document, so the same fields or the same refusal
+    from vlib import jsonspell
+    pool = [c for c in cases if c.line.startswith("tx.parse ") and c.tags[0] in ("random-valid", "malformed-num", "malformed-to", "malformed-data", "malformed-accesslist", "missing-field")]
+    for c in rng.sample(pool, min(len(pool), 150 if tier == "quick" else 600)):
+        try:
+            t = bytes.fromhex(c.line.split(" ")[1]).decode()
+        except UnicodeDecodeError:
+            continue
+        cases.append(Case("tx.parse " + hx(jsonspell.respell(rng, t, p_escape=rng.choice([0.05, 0.3, 1.1]))), tags=("respelled", c.tags[0]), meta={k: v for k, v in c.meta.items() if k in ("token", "field")}))
     from vlib import routes
     cases += routes.add_routes(cases, rng, 80, tier)
     return cases
